@@ -341,7 +341,9 @@ def u_repo_frozen():
     import json
 
     path = os.path.join(os.path.dirname(os.path.abspath(__file__)), "data", "repo_programs.json")
-    return [("repo:" + o["origin"].split(":", 1)[1] if o["origin"].startswith("repo:") else o["origin"], o["src"]) for o in json.load(open(path))]
+    # two harvested programs make sympy (inside qlasskit) run for minutes: excluded by text
+    slow = ("a ** 3", "a**3")
+    return [("repo:" + o["origin"].split(":", 1)[1] if o["origin"].startswith("repo:") else o["origin"], o["src"]) for o in json.load(open(path)) if not any(x in o["src"] for x in slow)]
 
 
 def u_repo():
